@@ -22,7 +22,7 @@
   READING / well-formedness: the number 1 is NOT a legal Nurimisaki clue (the line of a cape always has at
   least two cells: the cape and its unshaded neighbour; the smallest number the puzz.link editor offers is 2).
   `solve_nurimisaki` treats a circled 1 as "cape with a shaded cell or the border next to it in some
-  direction", i.e. like a circle without a number, whereas rule 3 as written admits no solution for it.
+  direction", i.e. like a circle without a number, whereas rule 3 as written has no solution for it.
   `WellFormed` therefore excludes the value 1: every entry is -1, 0 or ≥ 2 (other negative values are not
   part of the format either).
   Rule 3 is stated as "in one of the four directions, the straight run of unshaded cells that starts at the
